@@ -8,6 +8,7 @@
 -/
 import NPModel.Refine.SortRows
 import NPModel.Refine.Samples
+import NPModel.Refine.Repacked
 namespace NP.C11
 open NP
 variable {α β : Type}
@@ -69,5 +70,18 @@ example : ∀ N, (((List.range N).mergeSort fun a b => decide (a / 2 < b / 2 ∨
   · intro a b h
     simp only [decide_eq_true_eq] at h
     omega
+
+/-- **Sorted inside the rows, re-packed into the same rows**: after the flat view has been
+    reordered inside every row (the row ordinal is the leading sort key, so the ordinal index is
+    unchanged and every row keeps its number of records), `_set_filtered_flat_df` puts into row
+    `i` exactly the reordered records of row `i`, for every field at once; rows are never merged
+    or moved, the number of rows is unchanged; a row without records comes back missing. -/
+theorem sorted_rows_repacked (F : NFrame α) (nest : String) (sorted : List (String × String × List (List α)))
+    (lens : List Nat) (hn : lens.length = F.index.length) (hcols : ∀ c ∈ sorted, c.2.2.map List.length = lens)
+    (hne : sorted ≠ []) :
+    ∃ col, F.setFilteredFlatDf nest (ordFlat sorted lens) = .ok (F.setCol nest (.nest col)) ∧
+      col.rows = repackedRows sorted lens ∧ col.rows.length = F.index.length := by
+  obtain ⟨col, h1, h2⟩ := setFilteredFlatDf_rows F nest sorted lens hn hcols hne
+  exact ⟨col, h1, h2, by rw [h2]; simp [repackedRows, hn]⟩
 
 end NP.C11
